@@ -218,10 +218,14 @@ def ekuLoop : List (Except String Nat) → M Unit
 /-- `if cond { w.<op>(..)? }` -/
 def opIf (c : Bool) (o : Op) : M Unit := if c then op o else pure ()
 
-/-- `if let Some(len) = self.path { w.integer("", &[len])? }` -/
+/-- the content octets of the path length INTEGER (after fix C17-cert-pathlen-negative: a leading zero octet when the
+top bit is set; it used to be `[len]` for every `u8`, i.e. a negative INTEGER for 128..=255) -/
+def pathInt (len : Nat) : List Nat := if len ≥ 0x80 then [0, len] else [len]
+
+/-- `if let Some(len) = self.path { if len >= 0x80 { w.integer("", &[0, len])? } else { w.integer("", &[len])? } }` -/
 def opPath (path : Option Nat) : M Unit :=
   match path with
-  | some len => op (.integer [len])
+  | some len => op (.integer (pathInt len))
   | none => pure ()
 
 /-- `encode_extension_start` -/
@@ -426,7 +430,7 @@ def extNode : XExt → Node
   | .basic isCa path =>
     extNodeKnown true OID_BASIC_CONSTRAINTS
       [seq ((if isCa then [.prim 0x01 [0xFF]] else []) ++
-            (match path with | some len => [.prim 0x02 [len]] | none => []))]
+            (match path with | some len => [.prim 0x02 (pathInt len)] | none => []))]
   | .keyUsage v => extNodeKnown true OID_KEY_USAGE [.prim 0x03 (bitstrContent true (keyUsageBytes v))]
   | .extKeyUsage l => extNodeKnown true OID_EXT_KEY_USAGE [seq (l.flatMap ekuNode)]
   | .subjKeyId b => extNodeKnown false OID_SUBJ_KEY_IDENTIFIER [.prim 0x04 b]
@@ -554,14 +558,21 @@ structure ExtView where
   ext : XExt
 deriving DecidableEq, Repr
 
+/-- the content of a DER INTEGER holding a `u8`: non-negative and minimal (X.690 8.3) — one octet below 0x80, or a zero
+octet followed by an octet from 0x80 on -/
+def parsePathLen : List Nat → Option Nat
+  | [p] => if p < 0x80 then some p else none
+  | [z, p] => if z = 0 ∧ 0x80 ≤ p then some p else none
+  | _ => none
+
 /-- the value of a known extension (the DER value inside the wrapping OCTET STRING) -/
 def extOfDer (oid : List Nat) (d : Der) : Option XExt :=
   if oid = OID_BASIC_CONSTRAINTS then
     match d with
     | .cons 0x30 [] => some (.basic false none)
     | .cons 0x30 [.prim 0x01 [0xFF]] => some (.basic true none)
-    | .cons 0x30 [.prim 0x02 [p]] => some (.basic false (some p))
-    | .cons 0x30 [.prim 0x01 [0xFF], .prim 0x02 [p]] => some (.basic true (some p))
+    | .cons 0x30 [.prim 0x02 c] => (parsePathLen c).map fun p => .basic false (some p)
+    | .cons 0x30 [.prim 0x01 [0xFF], .prim 0x02 c] => (parsePathLen c).map fun p => .basic true (some p)
     | _ => none
   else if oid = OID_KEY_USAGE then (parseKeyUsage d).map .keyUsage
   else if oid = OID_EXT_KEY_USAGE then
